@@ -78,8 +78,11 @@ def scc_order(rep: Report, ctx: Ctx, rule: str, det: Optional[FuncInfo] = None,
                     for c in ast.walk(defs.resolve_deep(l.iter))):
                 scc_loop = l
         if scc_loop is None:
-            raise AnalysisError(f"{rule}: detect_loops has no loop over the "
-                                "strongly connected components")
+            rep.ob(rule, "detect_loops visits the strongly connected "
+                   "components in the order networkx yields them", False,
+                   fi=det, node=det.node,
+                   detail="no loop over strongly_connected_components(graph)")
+            return
     # order: the component list is computed once, on the graph before any
     # loop is collapsed, and collapsing a loop prunes what lies behind its
     # break paths from the parent graph - a loop on the break / exit path of
